@@ -3,6 +3,10 @@
 import json
 
 CLAIMS = {
+ "C04": dict(
+  text="Machine-checked proof that the offset/size/alignment loop of structure.py (model: Model/Layout.v, a line-by-line transcription incl. the treatment of pre-set offsets and bit-field units) computes exactly the C layout rule for every field list of statically sized members without bit fields (layout_is_c), with the meaning of that rule proved separately: packed = back to back (c_packed_back_to_back), aligned = each member at the next multiple of its power-of-two alignment and nothing smaller works (c_aligned_next_multiple, padding_is_roundup, padding_minimal for the -x & (a-1) bit trick); arrays inherit element alignment, pointers follow the configured pointer type. Sizes/alignments of all built-ins are regenerated from /repo and checked (type_table_ok). Layout, parse and dump of random fixed-size definitions x {packed, aligned} x pointer width x compiled/interpreted are compared with the model inside coqc; an independent Python C-rule calculator and ctypes (platform ABI) judge the implementation; len(T) = sizeof(T) = consumed = dumped is checked on the implementation (the 'sizes agree' clause is validated, its proof over the reader/writer is not yet done: partial for that clause).",
+  note="Trusted: Coq kernel + VM; vf/facts.py; vf/structs.py (live class -> Coq ty translation; offsets are never copied from the class, the model recomputes them); ctypes as the C ABI oracle.",
+  technique="Coq proof (induction on the field list; Z.land_ones for the padding trick) + regenerated type table + vm_compute correspondence + ctypes oracle", ref="5 (C04)"),
  "C10": dict(
   text="Machine-checked proof (Coq 8.16) on a hand-written model of expression.py: eval_correct (every parse tree of the stratified C grammar evaluates to its denotation over unbounded integers, through the real unary-minus rewriting pass and shunting-yard loops), eval_repeatable (any token list, any history of contexts), minus_classified. Operator/precedence tables, the unary-minus marker and the precedence comparison are regenerated from /repo on every run and re-checked (Gen/GeneratedOk.v); the algorithm is tied by differential execution of the model inside coqc against Expression.evaluate (exhaustive operator pairs/triples, random trees, histories, malformed input). The character-level tokenizer is modelled and validated by that correspondence, not proved.",
   note="Trusted: Coq kernel + VM; vf/facts.py; generator reach; Python int semantics as written in Model/ExprOps.v. Theorems closed under the global context.",
